@@ -5,14 +5,16 @@ import vlib
 RULE = ("transport level: random (ReadLimit, WriteTimeout) incl. zero/negative/huge through both transport constructors over a recording conn; "
         "root level: random DialOption / ServerOption lists, the configuration actually handed to the transport constructors is captured "
         "(source rewrite of the two call sites) - one real TLS connection per server case; end to end over real sockets: frames of size "
-        "limit-1, limit, limit+1 on both roles with a bystander session; a raw peer that stops reading (write-stall bound); constants of the "
+        "limit-1, limit, limit+1 on both roles with a bystander session; a raw peer that stops reading (write-stall bound); the write deadline in "
+        "force at the moment of a data write (recording conn, both transports, also after idling 3 write timeouts) and a healthy real session "
+        "idling 5 write timeouts must carry the next call in each direction and stay the same session; constants of the "
         "compiled packages compared with the documented ones in Coq; distinct = distinct option list / (limit,size)")
 ASSUMPTIONS = ["gorilla/websocket enforces SetReadLimit and write deadlines as documented; kernel socket buffering decides when a stalled write starts blocking (measured with slack)"]
 FILES = ["root/fake_test.go", "root/c16_test.go", "root/c07_test.go", "root/peers_test.go", "root/c18_test.go"]
 
 
 def run(ctx):
-    rc1, out1, recs1 = ctx.go("internal/transport", "^TestVerifC18Transport$", ["transport/c18_test.go"], "transport", timeout=240)
+    rc1, out1, recs1 = ctx.go("internal/transport", "^TestVerifC18Transport", ["transport/c18_test.go"], "transport", timeout=240)  # + TestVerifC18TransportDeadline
     rw = {"server.go": [(r"\btransport\.NewServerTransport\(", "vNewServerTransport(")],
           "client.go": [(r"\btransport\.NewClientTransport\(", "vNewClientTransport(")]}
     rc2, out2, recs2 = ctx.go("", "^TestVerifC18$", FILES, "wsrpc", timeout=600 if ctx.thorough else 300, rewrites=rw)
@@ -39,7 +41,7 @@ def run(ctx):
     ctx.oblige(rc == 0, "C18_consts_documented", "(constants of the compiled code: %s) %s" % (K, out[-300:]))
     for r in recs:
         if r.get("fail"):
-            ctx.fail(r["fail"], "limits monitor '%s' failed: %s" % (r["fail"], str(r.get("info"))[:300]), case=r)
+            ctx.fail(r["fail"].split("/")[0], "limits monitor '%s' failed: %s" % (r["fail"], str(r.get("info"))[:300]), case=r)
     hdr = ("From Coq Require Import List NArith ZArith String.\nFrom WV Require Import Base.Hex.\nImport ListNotations.\n"
            "Open Scope string_scope.\nOpen Scope Z_scope.\nDefinition K : consts := %s." % kdef)
     ctx.model("Run.RunC18", recs, header=hdr)
